@@ -210,11 +210,33 @@ func shapePayload(t *rapid.T, tn *testNode, tx interfaces.Transaction) {
 	}
 }
 
+// shapeOutputs adds the typed outputs whose payloads point into the chain.
+func shapeOutputs(t *rapid.T, tn *testNode, tx interfaces.Transaction) {
+	if tx.TxType() != ctypes.ReturnSideChainDepositCoin || tx.Version() < ctypes.TxVersion09 ||
+		rapid.IntRange(0, 2).Draw(t, "shapeReturnDeposit") == 0 {
+		return
+	}
+	// a deposit transaction hash that exists in the ledger: the two genesis
+	// transactions (the ELA asset registration has neither inputs nor
+	// outputs), a coinbase, the funding transfer
+	candidates := []common.Uint256{core.ELAAssetID, tn.Genesis.Transactions[0].Hash(), tn.tip.Transactions[0].Hash()}
+	if len(tn.xcoins) > 0 {
+		candidates = append(candidates, tn.xcoins[0].Op.TxID)
+	}
+	addr, _ := tn.Keys[0].ProgramHash.ToAddress()
+	outs := tx.Outputs()
+	outs = append(outs, &ctypes.Output{AssetID: core.ELAAssetID, Value: common.Fixed64(rapid.Int64Range(0, 1000).Draw(t, "returnValue")),
+		ProgramHash: tn.Keys[1].ProgramHash, Type: ctypes.OTReturnSideChainDepositCoin,
+		Payload: &outputpayload.ReturnSideChainDeposit{GenesisBlockAddress: addr,
+			DepositTransactionHash: rapid.SampledFrom(candidates).Draw(t, "depositTx")}})
+	tx.SetOutputs(outs)
+}
+
 // orderedTypes lists the types with the anchored ones first (rapid favours
 // the front of a list) and the coinbase last.
 func orderedTypes() []ctypes.TxType {
 	first := []ctypes.TxType{ctypes.RegisterProducer, ctypes.ReturnDepositCoin, ctypes.WithdrawFromSideChain,
-		ctypes.TransferCrossChainAsset, ctypes.UpdateProducer, ctypes.CancelProducer, ctypes.RegisterCR}
+		ctypes.TransferCrossChainAsset, ctypes.ReturnSideChainDepositCoin, ctypes.UpdateProducer, ctypes.CancelProducer, ctypes.RegisterCR}
 	seen := map[ctypes.TxType]bool{ctypes.CoinBase: true}
 	out := append([]ctypes.TxType{}, first...)
 	for _, x := range first {
@@ -269,6 +291,7 @@ func runTxUnit(t *testing.T, profile string, blocks int) {
 		default:
 			meta.Anchored = true
 			anchor(t, tn, tx, height)
+			shapeOutputs(t, tn, tx)
 		}
 		wire := gen.TxBytes(tx)
 		stage := "unserializable"
